@@ -9,6 +9,31 @@
 (* trace validator reports every disagreement as a model/kernel mismatch.        *)
 EXTENDS Integers, Sequences, FiniteSets
 
+(* ---- what is supplied.  DupToMemfd takes an io.Reader; "the supplied bytes" are exactly   *)
+(* the bytes that reader yields from its CURRENT position until EOF -- not what a stat of   *)
+(* an underlying file reports.  A source is [size (st_size or -1), pos (offset the reader   *)
+(* starts at), yields (bytes it delivers)]; for an honest regular file yields = size - pos, *)
+(* for a limited / section reader it is less, for kernel files (/sys, /proc attributes)     *)
+(* st_size and yield are unrelated.  Only `yields` determines the expected content.         *)
+ReaderKinds == { "bytes",    \* bytes.Reader
+                 "file",     \* *os.File at offset 0, yields the whole file
+                 "fileoff",  \* *os.File positioned past a header: yields less than st_size
+                 "limited",  \* io.LimitReader over an *os.File that has a trailer after the data
+                 "section",  \* io.SectionReader in the middle of a file
+                 "pipe",     \* pipe written in odd chunks
+                 "short" }   \* reader returning odd chunk sizes and (n, EOF) together
+KernelFiles == { "sysattr",  \* *os.File of a /sys attribute: st_size 4096, yields fewer bytes
+                 "procattr" }\* *os.File of a /proc file: st_size 0, yields more
+ExpectedSize(src) == src.yields
+SourceOK(kind, src) ==         \* the driver really built the source the case asks for
+  CASE kind = "file"     -> src.pos = 0 /\ src.size = src.yields
+    [] kind = "fileoff"  -> src.pos > 0 /\ src.size = src.pos + src.yields
+    [] kind = "limited"  -> src.pos = 0 /\ src.size > src.yields
+    [] kind = "section"  -> src.pos > 0 /\ src.size > src.pos + src.yields
+    [] kind = "sysattr"  -> src.size > src.yields
+    [] kind = "procattr" -> src.size < src.yields
+    [] OTHER -> TRUE
+
 Required == {"SEAL", "SHRINK", "GROW", "WRITE"}       \* what makes the file immutable
 AllSeals == Required \cup {"FUTURE_WRITE", "EXEC"}
 
